@@ -233,7 +233,10 @@ func (s *LifeScenario) PostDrain(k *sim.Kernel, left []string) []sim.Violation {
 // listener in its accept loop). A panic of the controller task inside that
 // Listen is not a finding of C14.
 func (s *LifeScenario) Forgive(k *sim.Kernel, v sim.Violation) bool {
-	if v.Clause != "no-panic" || !strings.Contains(v.Key, "task=ctl") || !strings.Contains(v.Detail, "varlink.(*Service).Listen(") {
+	// (the nil listener shows in whichever of the two overlapping serving calls
+	// loses the race: the controller's second Listen or the serving task's next round)
+	if v.Clause != "no-panic" || !(strings.Contains(v.Key, "task=ctl") || strings.Contains(v.Key, "task=serve")) ||
+		!(strings.Contains(v.Detail, "varlink.(*Service).Listen(") || strings.Contains(v.Detail, "varlink.(*Service).DoListen(")) {
 		return false
 	}
 	// (the controller's second calls are sequential: a return belongs to the call before it)
